@@ -88,6 +88,41 @@ def run_write(workdir, target, new_bytes, pol, timeout=120):
     return {"rc": rc, "status": status, "log": lines, "out": out[-1500:]}
 
 
+def run_entry(workdir, kind, attr, item, target, pol, timeout=120):
+    """the REAL macro entry point (`actor` / `family`) on (attr, item) in a rustc child with the cut shim watching files named like `target`
+    (the file the attribute's `file = ".."` option names).  Returns dict(rc, status in {'killed','ok','err','other'}, log, out)"""
+    so = hook.build_hook()
+    shim = build_shim()
+    os.makedirs(workdir, exist_ok=True)
+    jf = os.path.join(workdir, "jobs")
+    open(jf, "wb").write(hook.enc_records([(kind, [attr, item, hook.manifest_dir(hook.ALL_CRATES, "all"), workdir])]))
+    drv = os.path.join(workdir, "driver.rs")
+    open(drv, "w").write('interthread::__verif_batch!("%s");\n' % jf)
+    log = os.path.join(workdir, "cut.log")
+    env = dict(hook.ENV, CARGO_MANIFEST_DIR=hook.manifest_dir(hook.ALL_CRATES, "all"))
+    env.update(policy_env(pol, os.path.basename(target), log))
+    env["LD_PRELOAD"] = shim
+    cmd = ["rustc", "--edition", "2021", "--crate-type", "lib", "--emit", "metadata", "--out-dir", workdir,
+           "--extern", "interthread=" + so, "-L", "dependency=" + os.path.join(hook.TARGET, "debug", "deps"), drv]
+    try:
+        r = hook.sh(cmd, env=env, timeout=timeout, cwd=workdir)
+        rc, out = r.returncode, r.stdout
+    except subprocess.TimeoutExpired:
+        rc, out = 124, "timeout"
+    status = "other"
+    outp = jf + ".out"
+    if rc == 137:
+        status = "killed"
+    elif rc == 0 and os.path.exists(outp):
+        res = hook.dec_records(open(outp, "rb").read())
+        if len(res) == 1:
+            status = "ok" if res[0][0] == "TOKENS" else "err"
+            if status == "err":
+                out += "\n" + repr(res[0])[:500]
+    lines = open(log, errors="replace").read().splitlines() if os.path.exists(log) else []
+    return {"rc": rc, "status": status, "log": lines, "out": out[-1500:]}
+
+
 def tmp_files(target):
     """sibling files whose name extends the target's file name"""
     return sorted(p for p in glob.glob(glob.escape(target) + "*") if p != target)
